@@ -221,6 +221,11 @@ func C16(c *core.Ctx) error {
 			add(fn, one[fn](s), sArg(s))
 		}
 	}
+	// letters without case (CJK, Hebrew) and a title-case digraph: letters, but not lower-case ones (only firstIsLower is
+	// asked about them: what "upper-casing" a title-case letter means is not stated)
+	for _, s := range []string{"中文", "שלום", "ǅungla", "ǅ", "中", "ǅx y"} {
+		add("firstIsLower", refFirstIsLower(s), sArg(s))
+	}
 	for _, s := range spaced {
 		add("firstIsLower", refFirstIsLower(s), sArg(s))
 		if v, ok := refExported(s); ok {
